@@ -45,14 +45,14 @@ func Run(k *report.Check) {
 		k.ExploreProc(fmt.Sprintf("single-db/d=%d", p.depth), mc.Config{Deadline: k.Within(0.45)}, p, single)
 	}
 	nf := nparams{depth: k.Pick(4, 5), n: 2, groups: 4, redeployedTwice: true}
-	k.ExploreProc(fmt.Sprintf("neighbours/redeployed-twice,n=%d,d=%d", nf.n, nf.depth), mc.Config{Deadline: k.Within(0.35)}, nf, neighbors)
+	k.ExploreProc(fmt.Sprintf("neighbours/redeployed-twice,n=%d,d=%d", nf.n, nf.depth), mc.Config{Deadline: k.Within(0.35), SharedSeen: 1 << 22}, nf, neighbors)
 	npc := nparams{depth: k.Pick(3, 4), n: 2, groups: 4, pendingCheckpoint: true}
-	k.ExploreProc(fmt.Sprintf("neighbours/pending-job-checkpoint,n=%d,d=2+%d", npc.n, npc.depth), mc.Config{Deadline: k.Within(0.35)}, npc, neighbors)
+	k.ExploreProc(fmt.Sprintf("neighbours/pending-job-checkpoint,n=%d,d=2+%d", npc.n, npc.depth), mc.Config{Deadline: k.Within(0.35), SharedSeen: 1 << 22}, npc, neighbors)
 	np := nparams{depth: k.Pick(4, 6), n: 2, groups: 4}
-	k.ExploreProc(fmt.Sprintf("neighbours/n=%d,d=%d", np.n, np.depth), mc.Config{}, np, neighbors)
+	k.ExploreProc(fmt.Sprintf("neighbours/n=%d,d=%d", np.n, np.depth), mc.Config{SharedSeen: 1 << 22}, np, neighbors)
 	if k.Thorough() {
 		np3 := nparams{depth: 5, n: 3, groups: 6}
-		k.ExploreProc(fmt.Sprintf("neighbours/n=%d,d=%d", np3.n, np3.depth), mc.Config{}, np3, neighbors)
+		k.ExploreProc(fmt.Sprintf("neighbours/n=%d,d=%d", np3.n, np3.depth), mc.Config{SharedSeen: 1 << 22}, np3, neighbors)
 	}
 }
 
